@@ -689,7 +689,7 @@ var classes = []classT{
 			if (f == "const" || f == "lit") && paramTypeOf(c, k).Kind == KBasic {
 				return true
 			}
-			if f == "const" && c.Spread {
+			if (f == "const" || f == "lit" && c.Args[k].Nil && c.Args[k].T.Kind == KIface) && c.Spread {
 				// with `...` a literal nil as well: it is converted to the type picked for its position (the slice type for
 				// the argument before the spread one, the element type for the spread one)
 				return true
